@@ -429,6 +429,8 @@ void vyukov_hash_map<Key, Value, Policies...>::erase(iterator& pos) {
     auto next = pos.extension->next.load(std::memory_order_relaxed);
     pos.prev->store(next, std::memory_order_relaxed);
     auto new_state = pos.current_bucket_state.locked().new_version();
+    // the unlock (reset / move_to_next_bucket) writes current_bucket_state back, so it has to carry the new version
+    pos.current_bucket_state = new_state.clear_lock();
     // (15) - this release-store synchronizes-with the acquire-load (23)
     pos.current_bucket->state.store(new_state, std::memory_order_release);
 
@@ -467,7 +469,10 @@ void vyukov_hash_map<Key, Value, Policies...>::erase(iterator& pos) {
 
     // increase the version but keep the lock
     // (19) - this release-store synchronizes-with the acquire-load (23)
-    pos.current_bucket->state.store(locked_state.new_version(), std::memory_order_release);
+    locked_state = locked_state.new_version();
+    // the unlock (reset / move_to_next_bucket) writes current_bucket_state back, so it has to carry the new version
+    pos.current_bucket_state = locked_state.clear_lock();
+    pos.current_bucket->state.store(locked_state, std::memory_order_release);
     assert(pos.current_bucket->state.load().is_locked());
     free_extension_item(extension);
   } else {
